@@ -21,27 +21,35 @@ CLAIMED = {
     'C02': _c('static: typestate path rule (edge dominance) + writer/reader table extraction from MIR switch arms',
               'BLOCK-TYPESTATE: the XZ block / LZIP member closer is only reachable where a unit is provably open; TABLE-INVERSE: '
               'filter ids, check ids, check sizes, filter constructors per variant, delta property and chain order agree '
-              'between XZ writer and reader (31 rows).',
+              'between XZ writer and reader (31 rows); CHECKSUM-FEED-W: every byte handed to the block encoder is fed to the '
+              'running check; FINALIZE-RESET: closing a unit resets every per-unit accumulator before the next unit; '
+              'COUNTER-TRUTH: byte counters advance by the count the sink reported; FORMULA-TWIN: shared size formulas of '
+              'writer and reader are the same expression.',
               'field-order/width agreement of headers and trailers (LAYOUT-SEQ not built), CRC values, index arithmetic, LZIP '
               'dictionary byte rounding.'),
     'C03': _c('static: ordering (reachability) rule + finite flag model',
               'UNPADDED-ORDER: the index unpadded size = counter - snapshot + check and the snapshot precedes every sink write of '
               'the block; FLAG-MODEL: first chunk / every chunk after a pending reset carries the dictionary reset, no '
-              'control byte outside the reader-accepted classes.',
+              'control byte outside the reader-accepted classes; SPEC-CONST: format constants equal the published specs (26 rows); '
+              'TABLE-INVERSE.',
               'acceptance by the reference implementation of everything else (needs the reference); SPEC-CONST compares the '
               'format constants (magics, filter/check ids and sizes, LZMA2 limits, props formula) with the published specs.'),
     'C04': _c('static: error-propagation taint over Err edges (container readers)',
               'ERR-SWALLOW-DEC: from the Err edge of every branch on a crate-error Result in the XZ/LZIP/LZMA readers the payload '
-              'reaches the Err return or an error field on every path (exceptions are checked path conditions).',
-              'that CRC/SHA detect a given corruption, LZMA-level structural errors. Also decided: GUARD-COMPARE (every parsed '
-              'integrity field / stored CRC decides an Err) and CHECKSUM-FEED (every byte handed out was fed to the running check).'),
+              'reaches the Err return or an error field on every path (exceptions are checked path conditions). GUARD-COMPARE '
+              '(every parsed integrity field / stored CRC decides an Err), CHECKSUM-FEED, PER-UNIT-RESET (per-block/member '
+              'accumulators re-initialised), WORKER-DRAIN (the MT reader hands out nothing after an error was stored), '
+              'READER-STATE, FINALIZE-RESET.',
+              'that CRC/SHA detect a given corruption, LZMA-level structural errors inside the range-coded payload.'),
     'C05': _c('static: error-propagation taint + I/O count classification at every Read::read / Write::write site',
               'ERR-SWALLOW (whole crate) and IO-COUNT (W1 dropped write count, W2 transforming writer returning a partial count, '
-              'R1 read count compared for equality with a required length).',
+              'R1 read count compared for equality with a required length), COUNTER-TRUTH (counters advance by the reported '
+              'count), EOF-MEANS-END (a 0-byte read is a clean end only where the format allows one).',
               'that truncation is *detected* by the end-of-stream consistency checks (value dependent).'),
     'C06': _c('static: interval analysis with guard refinement across calls/fields; call-graph SCCs',
               'ALLOC-TAINT (every decoder-reachable allocation size bounded), INT-OVF (overflow asserts in loop-free scalar '
-              'functions unreachable), NO-RECURSION (no self-recursion driven by input).',
+              'functions unreachable), INT-OVF-INPUT (arithmetic directly on just-read header integers), NO-RECURSION (no '
+              'self-recursion driven by input), READER-STATE (a chunk that needs props/dict reset and lacks it is an Err).',
               'index bounds inside the LZ window and BCJ2 state machine, loop termination, checked BCJ address arithmetic on data '
               'bytes (inside loops).'),
     'C07': _c('static: dominance rule on impl Read::read + I/O count classification',
@@ -52,21 +60,24 @@ CLAIMED = {
     'C08': _c('static: ordering/guard rules on the four MT pipelines + control-byte value sets',
               'SEQ-ORDER (hand-out only on seq == next, reorder map keyed by seq, one increment per hand-out/dispatch), CTRL-SETS '
               '(MT cutter cuts exactly at the ST reader\'s dictionary-reset values, same classes and header lengths), '
-              'FRESH-CODEC, MT-TERMINATOR, ERR-SWALLOW-MT.',
+              'FRESH-CODEC, MT-TERMINATOR, ERR-SWALLOW-MT, WORKER-DRAIN.',
               'byte equality of outputs (needs C01), behaviour under interleavings beyond the ordering discipline.'),
     'C09': _c('static: all-paths rule on worker CFGs + dominance of error checks',
               'WORKER-NOTIFY (every path from a successful steal to an exit posts to the result channel), ERRCHK-BEFORE-BLOCK '
-              '(error store checked in the loop before every blocking recv), ERR-SWALLOW-MT.',
+              '(error store checked in the loop before every blocking recv), ERR-STICKY (a stored error is never cleared and is '
+              'returned by every later call), EOF-MEANS-END (source EOF without the terminator is an error), ERR-SWALLOW-MT.',
               'progress of back-pressure loops, value relations between sequence counters.'),
     'C10': _c('static: lock-set analysis, condvar predicate discipline, call-graph effects',
-              'CV-LOCK, LOCK-SCOPE, DROP-CLOSE, SPAWN-BOUND for the work queue and the four MT types.',
+              'CV-LOCK, CV-NOTIFY (every predicate write is followed by a notify on all paths), LOCK-SCOPE, DROP-CLOSE, SPAWN-BOUND '
+              'for the work queue and the four MT types.',
               'termination of the codec work a worker does on one unit; std primitives behave as modelled.'),
     'C12': _c('static: contradiction rule by value-set evaluation + control dependence',
-              'BYTE-CONTRA (no success exit dead by contradictory byte tests), MULTISTREAM-GUARD, STREAM-RESET.',
+              'BYTE-CONTRA (no success exit dead by contradictory byte tests), MULTISTREAM-GUARD, STREAM-RESET, PER-UNIT-RESET.',
               'alignment accounting across streams, LZIP member loop, MT backward scan arithmetic.'),
     'C13': _c('static: call-graph effect analysis + data-flow from scheduling sources',
-              'DET-EFFECT (no nondeterminism source / uninitialised memory reachable from the writers), SCHED-FLOW, FRESH-CODEC, '
-              'SEQ-ORDER.',
+              'DET-EFFECT (no nondeterminism source / uninitialised memory reachable from the writers), SCHED-FLOW (no value '
+              'derived from worker timing, queue lengths or progress counters reaches a cut decision or an emitted byte; helper '
+              'predicates inlined), FRESH-CODEC, SEQ-ORDER.',
               'independence from the write partition inside the LZ window (numeric relation between positions).'),
     'C14': _c('static: symbolic sign analysis of the normalisation kernels',
               'NORM-NONNEG: scalar, AVX2 and SSE4.1 position-normalisation kernels all store max(p,o)-o (>= 0, 0 when p <= o).',
@@ -84,11 +95,13 @@ CLAIMED = {
               'KIB-UNITS over the estimator call tree, LIMIT-BEFORE-ALLOC, INT-OVF-EST.',
               'estimate >= real peak heap and within a constant factor (needs allocation measurements).'),
     'C18': _c('static: provenance of the slice handed to the current unit; dominance of size checks',
-              'UNIT-CLAMP (4 writers), EXPECTED-SIZE (LZMAWriter declared size).',
-              'exact unit counts for a given input; OPT-CLAMP (option raised to dict size) not built.'),
+              'UNIT-CLAMP (4 writers), EXPECTED-SIZE (LZMAWriter declared size), OPT-CLAMP (unit-size options raised to the '
+              'dictionary size, never lowered below it).',
+              'exact unit counts for a given input.'),
     'C19': _c('static: interval analysis with public option fields ranging over their whole type',
               'OPT-TAINT: every arithmetic assert fed by a public option value in the writer-constructor call tree is proven '
-              'unreachable or reported (one finding per function); the properties byte fits u8.',
+              'unreachable or reported (one finding per function); the properties byte fits u8. OPT-VALIDATE: no writer '
+              'constructor / header encoder lost a validation exit (census); OPT-CLAMP; FORMULA-TWIN.',
               'decodability of what in-range options produce (C01/C02); run-time state arithmetic inside encode loops.'),
 }
 
